@@ -93,6 +93,9 @@ type End struct {
 	finReady time.Time
 	rTerm    error         // delivered terminal condition
 	TermAt   time.Duration // when it was delivered
+	// Blackhole: the link has gone dark in this direction - what is written from now on is accepted
+	// by the local kernel and never arrives (no error, no FIN, no RST)
+	Blackhole bool
 	closed   bool
 	waiting  bool
 	readWake chan struct{}
@@ -361,6 +364,10 @@ func (c *End) writeLocked(p []byte, cont bool) (int, error) {
 		if c.peerGoneWrite > 1 {
 			return 0, &net.OpError{Op: "write", Net: "tcp", Err: os.NewSyscallError("write", syscall.EPIPE)}
 		}
+		c.TotalWritten += int64(len(p))
+		return len(p), nil
+	}
+	if c.Blackhole {
 		c.TotalWritten += int64(len(p))
 		return len(p), nil
 	}
